@@ -353,6 +353,9 @@ func (b *simBody) Read(p []byte) (int, error) {
 			return 0, io.EOF
 		}
 		b.tr.r.Fault("request-body-cut")
+		b.tr.mu.Lock()
+		b.tr.lastCutClass[b.who] = "broken:" + b.cutClass()
+		b.tr.mu.Unlock()
 		return 0, io.ErrUnexpectedEOF
 	}
 	if len(p) == 0 {
@@ -369,7 +372,7 @@ func (b *simBody) Read(p []byte) (int, error) {
 	}
 	n, err := b.rc.Read(p[:max])
 	b.off += n
-	if b.clean {
+	if b.cut >= 0 {
 		b.seen = append(b.seen, p[:n]...)
 	}
 	if b.post {
@@ -426,7 +429,27 @@ func (tr *simTransport) RoundTrip(req *http.Request) (*http.Response, error) {
 	})
 	<-done
 	if req.Body != nil {
-		req.Body.Close() // as net/http does once the handler has returned
+		// as net/http does once the handler has returned: discard what is left of the request body, then close it
+		// (a client still writing its closing delimiter must not see a broken pipe after the server has answered)
+		if rec.Code == 200 {
+			rest, _ := io.ReadAll(req.Body)
+			// a cut that the server never read up to still happened: if the form's closing delimiter lies
+			// beyond the cut, the upload was truncated and must not have been committed
+			if sb, ok := sreq.Body.(*simBody); ok && sb.cut >= 0 {
+				full := append(append([]byte(nil), sb.seen...), rest...)
+				end := bytes.Index(full, []byte("--"+sb.bound+"--"))
+				tr.mu.Lock()
+				if _, fired := tr.lastCutClass[who]; !fired && (end < 0 || sb.cut < end+len(sb.bound)+4) {
+					pre := "broken:"
+					if sb.clean {
+						pre = ""
+					}
+					tr.lastCutClass[who] = pre + "unread-tail"
+				}
+				tr.mu.Unlock()
+			}
+		}
+		req.Body.Close()
 	}
 	res := rec.Result()
 	res.Request = req
